@@ -314,6 +314,11 @@ def jobs(tier):
                 if f == "oid" or not q:
                     out.append({"harness": "faults", "params": {"flavour": f, "nops": 2, "faults": 1, "maxat": 24 if q else 40, "first": [side, op]},
                                 "label": "%s/2-ops/1-fault/first=%d:%s" % (f, side, op)})
+        if q and f == "oid":
+            # two faults close together (the second may hit while the loop that met the first is still backing off)
+            for side in (0, 1):
+                out.append({"harness": "faults", "params": {"flavour": f, "nops": 1, "faults": 2, "maxat": 10, "first": [side, "create_b"]},
+                            "label": "%s/1-op/2-faults/first=%d:create_b" % (f, side)})
         out.append({"harness": "stuck", "params": {"flavour": f}, "label": "%s/stuck-file" % f})
     out.append({"harness": "faults~temporary-not-notified", "params": {"flavour": "oid", "nops": 1, "faults": 1, "maxat": 12, "first": [0, "create_b"]},
                 "label": "faults~temporary-not-notified", "role": "sens"})
